@@ -88,7 +88,7 @@ def networks(draw, tier="quick"):
     arcs = [[perm[u], perm[v], c, w] for u, v, c, w in arcs]
     arcs = [list(a) for a in draw(st.permutations(arcs))]
     return {
-        "family": family, "n": n, "arcs": arcs, "s": perm[s], "t": perm[t], "scheme": draw(st.integers(0, 3)), "demand_off": draw(st.integers(-3, 2)), "supply_seed": draw(st.lists(st.integers(-3, 3), min_size=n, max_size=n)),
+        "family": family, "n": n, "arcs": arcs, "s": perm[s], "t": perm[t], "scheme": draw(st.integers(0, 4)), "demand_off": draw(st.integers(-3, 2)), "supply_seed": draw(st.lists(st.integers(-3, 3), min_size=n, max_size=n)),
         "supply_mode": draw(st.sampled_from(["from-flow", "from-flow", "random"])),
         "flow_seed": draw(st.lists(st.integers(0, 4), min_size=len(arcs), max_size=len(arcs))),
     }
